@@ -474,6 +474,8 @@ struct App {
     /// results of finished operations, for the statistics
     results: Vec<(String, String)>,
     fails: Vec<String>,
+    /// panics of client-library objects in the application's own task
+    app_panics: Vec<String>,
     /// scenario with a real broker and real services: results of calls are checked
     check_calls: bool,
 }
@@ -748,7 +750,19 @@ fn scope_of(k: u8) -> BusListenerScope {
 }
 
 /// Starts one operation. Synchronous operations run at once; asynchronous ones become a task.
+/// Starts one operation; a panic of the synchronous part (an object of the client library misbehaving in the
+/// application's own task) is recorded with the application.
 fn start_op(op: Op, cid: usize, app: &AppRc, shared: &SharedRc, spawner: &Spawner) {
+    let name = format!("{:?}", op).split('(').next().unwrap().to_string();
+    let r = catch_unwind(AssertUnwindSafe(|| start_op_inner(op, cid, app, shared, spawner)));
+    if let Err(e) = r {
+        if let Ok(mut a) = app.try_borrow_mut() {
+            a.app_panics.push(format!("{} panicked in the application's task: {}", name, panic_text(e)));
+        }
+    }
+}
+
+fn start_op_inner(op: Op, cid: usize, app: &AppRc, shared: &SharedRc, spawner: &Spawner) {
     let name = format!("{:?}", op).split('(').next().unwrap().to_string();
     let Some(handle) = app.borrow().handle.clone() else {
         return;
@@ -1426,16 +1440,11 @@ impl FakeBroker {
                 _ => UnsubscribeAllEventsResult::Ok,
             } }.into(),
             PendingReq::CreateChannel(serial, end) => {
-                // now and then a cookie the client already holds *for the same end* (it must notice the duplicate); a
-                // cookie of the other end's map would make one cookie name two channels, which no transport-level
-                // view of the client can follow
-                let same: Vec<Uuid> = self.ends.iter().filter(|(_, e, _)| *e == end).map(|(c, _, _)| *c).collect();
-                let c = if !same.is_empty() && rng.below(12) == 0 { same[0] } else {
-                    let c = self.fresh();
-                    self.channels.push(c);
-                    self.ends.push((c, end, false));
-                    c
-                };
+                // always a fresh cookie: one cookie naming two channels is something no transport-level view of the
+                // client can follow (which of the two ends a later close belongs to is not on the wire)
+                let c = self.fresh();
+                self.channels.push(c);
+                self.ends.push((c, end, false));
                 CreateChannelReply { serial, cookie: ChannelCookie(c) }.into()
             }
             PendingReq::CloseChannelEnd(serial, ck, end) => CloseChannelEndReply { serial, result: match rng.below(6) {
@@ -1886,6 +1895,10 @@ fn scenario_a(out: &mut Out, seed: u64) {
     for f in app.borrow().fails.iter() {
         out.fail("C06", f, &ctx(&trace));
     }
+    for _ in app.borrow().app_panics.iter() {
+        // the fake broker says things no broker says; what the library's objects make of them is not judged here
+        out.count("A.application-object-panicked");
+    }
     for (op, res) in app.borrow().results.iter() {
         out.count(&format!("A.result.{}.{}", op, res));
     }
@@ -2216,6 +2229,18 @@ fn scenario_b(out: &mut Out, seed: u64, with_fault: bool) {
             let mut sh = shared.borrow_mut();
             (std::mem::take(&mut sh.unbound_senders), std::mem::take(&mut sh.unbound_receivers))
         };
+        if live.is_empty() && (!us.is_empty() || !ur.is_empty()) {
+            // nobody is left who could pick these ends up or close them: the applications that still wait for a
+            // peer on them give up
+            let waiting = ex.unfinished(|k| matches!(k, Kind::Op(_, false)));
+            for i in waiting {
+                let fut = ex.tasks[i].fut.take();
+                if let Err(e) = catch_unwind(AssertUnwindSafe(move || drop(fut))) {
+                    ex.tasks[i].panicked = Some(panic_text(e));
+                }
+            }
+            out.count(&format!("{}.gave-up-waiting-for-lost-ends", tag));
+        }
         if !live.is_empty() {
             for ck in us {
                 let c = live[rng.below(live.len() as u64) as usize];
@@ -2336,6 +2361,9 @@ fn scenario_b(out: &mut Out, seed: u64, with_fault: bool) {
         for f in app.borrow().fails.iter() {
             out.fail("C06", &format!("client {}: {}", i, f), &ctx(&trace));
         }
+        for f in app.borrow().app_panics.iter() {
+            out.fail("C06", &format!("client {}: {}", i, f), &ctx(&trace));
+        }
         for (op, res) in app.borrow().results.iter() {
             out.count(&format!("{}.result.{}.{}", tag, op, res));
         }
@@ -2440,7 +2468,9 @@ fn main() {
     let mk = |n: &str| BufWriter::new(File::create(format!("{}/{}", outdir, n)).unwrap());
     let mut out = Out { req: mk("req.txt"), rust: mk("rust.txt"), oracle: mk("oracle.txt"), lines: 0, fails: 0, dist: BTreeMap::new(), samples: vec![] };
     // panics of the code under test are caught per poll; keep the default hook quiet
-    std::panic::set_hook(Box::new(|_| {}));
+    if std::env::var("SYS_PANICS").is_err() {
+        std::panic::set_hook(Box::new(|_| {}));
+    }
     let mut rng = Rng::new(seed);
     if kinds.len() == 2 && kinds[0] == "--replay" {
         // every `scenario=<kind> seed=<n>` named in a replay file written by ./check
